@@ -1416,7 +1416,8 @@ class URL:
             if join_path[0] == "/":
                 path = join_path
             elif not orig_path:
-                path = f"/{join_path}"
+                # RFC 3986 5.2.3: a "/" is prepended only if the base has an authority
+                path = f"/{join_path}" if self._netloc else join_path
             elif orig_path[-1] == "/":
                 path = f"{orig_path}{join_path}"
             else:
